@@ -22,6 +22,7 @@ import (
 	"github.com/magisterquis/curlrevshell/internal/hsrv"
 	"github.com/magisterquis/curlrevshell/internal/iobroker"
 	"github.com/magisterquis/curlrevshell/lib/opshell"
+	"github.com/magisterquis/curlrevshell/verifx/rcall"
 )
 
 // Watchdog is how long any single wait may take before it counts as a hang.
@@ -77,7 +78,7 @@ func Start(cfg Config) (*World, error) {
 		as they come. */
 	}
 	var err error
-	if w.B, err = iobroker.New(w.Ich, w.Och); nil != err {
+	if w.B, err = NewBroker(w.Ich, w.Och); nil != err {
 		return nil, err
 	}
 	lw := cfg.LogW
@@ -85,7 +86,7 @@ func Start(cfg Config) (*World, error) {
 		lw = io.Discard
 	}
 	sl := slog.New(slog.NewJSONHandler(lw, nil))
-	if w.Srv, err = hsrv.New(sl, cfg.Listen, cfg.FDir, cfg.Tmplf, w.Ich, w.Och, w.B, cfg.CertFile, cfg.CbAddrs, cfg.PrintIPv6, cfg.OneShell); nil != err {
+	if w.Srv, err = NewServer(sl, cfg.Listen, cfg.FDir, cfg.Tmplf, w.Ich, w.Och, w.B, cfg.CertFile, cfg.CbAddrs, cfg.PrintIPv6, cfg.OneShell); nil != err {
 		return nil, err
 	}
 	ctx, cancel := context.WithCancel(context.Background())
@@ -284,4 +285,18 @@ func NoticeText(cls []opshell.CLine) string {
 		fmt.Fprintf(&b, "%q ", cl.Line)
 	}
 	return b.String()
+}
+
+// NewBroker calls iobroker.New and NewServer calls hsrv.New, both through
+// reflection (package rcall): parameters they may have grown get zero values.
+func NewBroker(ich chan string, och chan opshell.CLine) (*iobroker.Broker, error) {
+	res := rcall.Call(iobroker.New, ich, och)
+	b, _ := res[0].(*iobroker.Broker)
+	return b, rcall.Err(res)
+}
+
+func NewServer(sl *slog.Logger, listen, fdir, tmplf string, ich chan string, och chan opshell.CLine, b *iobroker.Broker, certFile string, cbAddrs []string, printIPv6, oneShell bool) (*hsrv.Server, error) {
+	res := rcall.Call(hsrv.New, sl, listen, fdir, tmplf, ich, och, b, certFile, cbAddrs, printIPv6, oneShell)
+	s, _ := res[0].(*hsrv.Server)
+	return s, rcall.Err(res)
 }
